@@ -91,7 +91,8 @@ Proof. exact prop_sibling_of_model. Qed.
 Print Assumptions C50_sibling_selection.
 
 (* Central theorem: the executable property predicate evaluated by the harness on the implementation
-   (prop_C50 = prop_resp && prop_enc && prop_sibling && no file left open; for requests no rule covers: not handled)
+   (prop_C50 = prop_resp && prop_enc && prop_sibling && no file left open; for requests no rule covers: not handled;
+   a rule file either fails to load or its BROWSE rule is enforced)
    holds of the model on EVERY well-formed (decodable) input: all methods, paths, Accept-Encoding values, default
    files, settings, rule routes and file systems.  There is no known-finding class (kf_C50 = 0 everywhere). *)
 Theorem C50_prop_of_model : forall i, wf_C50 i = true -> kf_C50 i = 0 -> prop_C50 i (run_C50 i) = true.
@@ -111,5 +112,5 @@ Proof. exact C50_example_lemma. Qed.
    serves the pre-compressed sibling a.txt.gz with Content-Encoding gzip. *)
 Example C50_wf_example :
   wf_C50 corpus_sibling_gz = true /\
-  run_C50 corpus_sibling_gz = VL [VZ 200; VB [71;90;66;89;84;69;83]; VB [55]; VB GZIP; VL [VZ 0; VZ 0; VZ 0]].
+  run_C50 corpus_sibling_gz = VL [VZ 200; VB [71;90;66;89;84;69;83]; VB [55]; VB GZIP; VL [VZ 0; VZ 0; VZ 0; VZ 0]].
 Proof. exact C50_wf_example_lemma. Qed.
